@@ -31,7 +31,7 @@ META = {
                  'last atoms of systems of 6 and 10003 atoms (serials crossing 9999/10000) chosen by symbolic booleans, degree up '
                  'to 5 (CONECT continuation), two molecules (TER); GRO: residue numbers in windows incl. negative and 99998..100002, '
                  'symbolic atom / residue names (len <= 6)',
-        'thorough': 'name lengths up to width + 2; a 99997-atom system (serials up to the five-digit limit)',
+        'thorough': 'name lengths up to width + 2; a 99990-atom system (all serials, incl. TER and the second molecule, within five digits)',
     },
     'stubs': ['vermouth.gmx.gro.deferred_open / open -> in-memory text files (CrossHair blocks real file writes)', 'string.Formatter.format_field (builtin format) -> pure-Python model for s / d with fill, align, width, precision; '
               'cross-checked against the builtin on concrete values at start-up; floats use the builtin',
@@ -457,7 +457,7 @@ def cases(tier):
                     'path_timeout': 120, 'twin': lo == -12})
     out.append({'fn': 'check_pdb_coord', 'part': {}, 'label': 'pdb-coordinates', 'timeout': 600, 'path_timeout': 120})
     out.append({'fn': 'check_pdb_conect', 'part': {'n': 8}, 'label': 'pdb-conect[8 atoms]', 'timeout': 600, 'path_timeout': 120, 'twin': True})
-    big = [10003] if tier == 'quick' else [10003, 99997]      # 99997 atoms: serials up to the five-digit limit (beyond it bonds are not claimed)
+    big = [10003] if tier == 'quick' else [10003, 99990]      # with TER and the second molecule the last serial is 99994: the five-digit limit (beyond it bonds are not claimed)
     for n in big:
         # serial numbers crossing the column width: 3 free bond flags per case, the other flags pinned (2 pinnings)
         for pinned in ({'0': True, '1': True, '2': True, '3': True}, {'3': False, '4': True, '5': True, '6': True}):
